@@ -33,6 +33,11 @@ ALPHABET = [
     "a = do {\n  h = n => if n < 1 then 0 else n + h(n - 1)\n  return {g: h}\n}",
     "f = do {\n  k = n => if n < 1 then 0 else n + k(n - 1)\n  return k\n}",
     "do {\n  inputs = {n: 9}\n  return #n\n}", "[1, 2] via (p2 => b = p2)", "f = (a) => a * 2",
+    # assignments in return position / inside anonymous function bodies: must stay local
+    "do {\n  return a = 7\n}", "do {\n  return leak1 = 1\n}", "(() => leak2 = 1)()", "(() => a = 9)()",
+    "(q7 => leak3 = q7)(3)", "(if true then (() => leak4 = 1) else (() => 2))()", "map([1], q8 => leak6 = q8)",
+    "g2 = () => leak7 = 1\ng2()", "do {\n  loc1 = 2\n  return do {\n    return leak8 = loc1\n  }\n}",
+    "{k: (() => leak9 = 5)()}", "b = (() => do {\n  return a = 3\n})()",
 ]
 TAIL = "[#n, inputs.n]"
 
@@ -82,7 +87,7 @@ def check_session_invariant(src, out, res, known):
             if k in FORBIDDEN_NAMES:
                 viol("a keyword / built-in name / inputs / constants became bound at top level",
                      {"name": k, "after_statement": i})
-            if k in ("loc1", "p1", "p2", "x", "n", "h", "k"):
+            if k in ("loc1", "p1", "p2", "x", "n", "h", "k", "q7", "q8") or k.startswith("leak"):
                 viol("a do-block local or function parameter is visible at top level after the block/call",
                      {"name": k, "after_statement": i})
             if k in seen and seen[k] != v:
